@@ -664,7 +664,7 @@ def row(action, sym="A", day=0, spelling="dollar", listed=None, desc=None, same=
 
 
 def conv(i, pid, rows, base="2024-01-10", awards=None, **opts):
-    o = {"rows": rows, "wit": 3}
+    o = {"rows": rows, "wit": 1 if pid in "nghxy" else 3}
     if awards is not None:
         o["awards"] = awards
     o.update(opts)
@@ -771,6 +771,8 @@ def fam_c19(tier, seed):
         [["A", -1, "empty", None, "Deposit"]],                     # vesting action with empty details: error
         [["A", -8, "fmv"], ["B", -1, "fmv"]],
         [["A", 1, "fmv"], ["A", -8, "fmv"]],
+        # one award transaction with a vest-specific detail and a fallback-only detail, in both orders
+        [["A", 0, "mixed", 0]], [["A", 0, "mixed2", 0]], [["A", 0, "mixed", -2]], [["A", 0, "mixed2", -2]], [["A", -1, "mixed", -3]], [["A", -1, "mixed2", None]],
     ]
     for aw in extra:
         sks.append(conv(i, "x", [row(R)], base=b, awards=aw)); i += 1
